@@ -298,4 +298,151 @@ theorem terminalDegree_reduces (pids : List Int) (s : Rose) (h : Represents s (S
   simp only [lm_terminal_degree, lm_terminal_degree.body, Py.bind, node_subtree_eq pids s h hin F, hres, Option.map,
     getTips_refines _ _ (range_nodup _), Py.finish, Py.len_eq, Branches.getTips]
 
+/-! ### the last step: the childless rows of the new table are the tips at or below the node -/
+
+/-- new parents of the model's subtree table are `-1` or valid rows, and the two columns are equally long -/
+theorem subtree_bound (pids : List Int) (n : Int) (res : Sub.SubTopo) (h : Sub.getSubtree pids n = some res) :
+    res.newPid.length = res.mapping.length ∧
+    ∀ k (hk : k < res.newPid.length), res.newPid[k] ≠ -1 → res.newPid[k].toNat < res.mapping.length := by
+  unfold Sub.getSubtree at h
+  simp only at h
+  unfold Sub.toSubTopology at h
+  simp only [Option.map_eq_some_iff] at h
+  obtain ⟨np, hnp, rfl⟩ := h
+  rw [C06.mapM_some_iff] at hnp
+  obtain ⟨hlen, hk⟩ := hnp
+  refine ⟨by simp [hlen], ?_⟩
+  intro k hkn hne
+  simp only at hkn hne ⊢
+  have := hk k (by omega) hkn
+  split at this
+  · simp only [Option.some.injEq] at this
+    exact absurd this.symm hne
+  · obtain ⟨_, hj, _⟩ := C06.pos?_some _ _ _ this
+    exact hj
+
+theorem id_mem_ids (r : Rose) : r.id ∈ r.ids := by cases r; simp [Rose.id, Rose.ids]
+
+theorem kids_ids_sub (r : Rose) : ∀ w ∈ idsL r.kids, w ∈ r.ids := by
+  cases r; intro w hw; simp only [Rose.kids] at hw; simp [Rose.ids, hw]
+
+/-- the children (in the table) of a node of the rose lie strictly below the rose's root -/
+theorem kids_closed (kf : Int → List Int) : ∀ r : Rose, Agrees kf r → ∀ p ∈ r.ids, ∀ w ∈ kf p, w ∈ idsL r.kids := by
+  intro r
+  induction r using C08.rose_ind with
+  | h i ks ih =>
+    intro hA p hp w hw
+    simp only [Agrees] at hA
+    obtain ⟨hk, hAL⟩ := hA
+    rw [C08.agreesL_iff] at hAL
+    simp only [Rose.ids, List.mem_cons] at hp
+    simp only [Rose.kids]
+    rw [C08.idsL_eq, List.mem_flatMap]
+    rcases hp with rfl | hp
+    · rw [hk, List.mem_map] at hw
+      obtain ⟨k, hkm, rfl⟩ := hw
+      exact ⟨k, hkm, id_mem_ids k⟩
+    · rw [C08.idsL_eq, List.mem_flatMap] at hp
+      obtain ⟨k, hkm, hpk⟩ := hp
+      exact ⟨k, hkm, kids_ids_sub k w (ih k hkm (hAL k hkm) p hpk w hw)⟩
+
+theorem map_getD_range (E : List Int) : (Py.range (E.length : Int)).map (fun j => E.getD j.toNat 0) = E := by
+  rw [Py.range_natCast]
+  apply List.ext_getElem
+  · simp
+  · intro k h1 h2
+    simp at h1
+    simp [h1]
+
+/-- **`LMeasure.terminal_degree` as translated is the number of tips at or below the node**: for the subtree `s` hanging at any node of a
+tree object (ids = positions) and every fuel `≥ 2·|s| + 1`, the generated function returns the number of nodes of `s` that no row names as
+its parent — which is the model's `terminalDegree` (`C10.terminal_degree_eq_tips_below`) -/
+theorem terminalDegree_refines (pids : List Int) (s : Rose) (h : Represents s (Sub.rangeI pids.length) pids)
+    (hin : ∀ i ∈ s.ids, 0 ≤ i ∧ i.toNat < pids.length) (F : Nat) :
+    lm_terminal_degree (2 * s.size + F + 1) (Sub.rangeI pids.length) pids s.id =
+      some (((s.ids.filter fun v => !pids.contains v).length : Nat) : Int) := by
+  obtain ⟨res, hres, hmap, hperm, hhead, hpar⟩ := C06.subtree_nodes pids s h hin
+  obtain ⟨res2, hres2, hred⟩ := terminalDegree_reduces pids s h hin F
+  have e2 : res = res2 := by rw [hres] at hres2; exact Option.some.inj hres2
+  subst e2
+  obtain ⟨hlen, hbound⟩ := subtree_bound pids s.id res hres
+  rw [hred]
+  congr 2
+  rw [← (hperm.filter _).length_eq]
+  generalize hE : res.mapping = E at *
+  generalize hN : res.newPid = NP at *
+  have hnd : E.Nodup := hperm.nodup_iff.2 h.2
+  have hEin : ∀ v ∈ E, 0 ≤ v ∧ v.toNat < pids.length := fun v hv => hin v (hperm.mem_iff.1 hv)
+  have hE0 : E.head? = some s.id := by rw [hmap]; cases s; simp [C04.enterOrder, Rose.id]
+  have hroot : s.id ∉ idsL s.kids := by
+    have := h.2
+    cases s
+    simp only [Rose.ids, List.nodup_cons] at this
+    simpa [Rose.id, Rose.kids] using this.1
+  conv_rhs => rw [← map_getD_range E, List.filter_map, List.length_map]
+  congr 1
+  apply List.filter_congr
+  intro j hj
+  rw [Py.range_natCast, List.mem_map] at hj
+  obtain ⟨j', hj', rfl⟩ := hj
+  rw [List.mem_range] at hj'
+  simp only [Function.comp, Int.toNat_natCast]
+  congr 1
+  rw [Bool.eq_iff_iff, List.contains_iff_mem, List.contains_iff_mem]
+  have hEj : E.getD j' 0 = E[j'] := by simp [hj']
+  constructor
+  · intro hmem
+    obtain ⟨c, hc, hcj⟩ := List.mem_iff_getElem.1 hmem
+    have hc0 : 0 < c := by
+      rcases Nat.eq_zero_or_pos c with rfl | h0
+      · exfalso
+        rw [List.head?_eq_getElem?, List.getElem?_eq_getElem hc] at hhead
+        have := Option.some.inj hhead
+        omega
+      · exact h0
+    have hp := (hpar c hc hc0).2
+    rw [hcj] at hp
+    simp only [Int.toNat_natCast] at hp
+    rw [hp]
+    have hcE : c < E.length := by omega
+    have hEc : E.getD c 0 = E[c] := by simp [hcE]
+    have hv := hEin E[c] (List.getElem_mem hcE)
+    rw [hEc, C06.getD_eq_getElem _ _ hv.2]
+    exact List.getElem_mem _
+  · intro hmem
+    obtain ⟨u, hu, hpu⟩ := List.mem_iff_getElem.1 hmem
+    have hjE : E[j'] ∈ s.ids := hperm.mem_iff.1 (List.getElem_mem hj')
+    have hkid : (u : Int) ∈ tableKids (Sub.rangeI pids.length) pids (E.getD j' 0) := by
+      rw [C06.mem_tableKids]
+      exact ⟨by omega, by simpa using hu, by simpa using hpu⟩
+    rw [hEj] at hkid
+    have hcl := kids_closed _ s h.1 _ hjE _ hkid
+    have hus : (u : Int) ∈ E := hperm.mem_iff.2 (kids_ids_sub s _ hcl)
+    obtain ⟨c, hc, hcu⟩ := List.mem_iff_getElem.1 hus
+    have hc0 : 0 < c := by
+      rcases Nat.eq_zero_or_pos c with rfl | h0
+      · exfalso
+        rw [List.head?_eq_getElem?, List.getElem?_eq_getElem hc] at hE0
+        have := Option.some.inj hE0
+        rw [hcu] at this
+        exact hroot (this ▸ hcl)
+      · exact h0
+    have hcN : c < NP.length := by omega
+    obtain ⟨hnn, hp⟩ := hpar c hcN hc0
+    have hEc : E.getD c 0 = (u : Int) := by simp [hc, hcu]
+    rw [hEc] at hp
+    simp only [Int.toNat_natCast] at hp
+    rw [C06.getD_eq_getElem _ _ hu, hpu, hEj] at hp
+    have hb := hbound c hcN (by omega)
+    rw [C06.getD_eq_getElem _ _ hb] at hp
+    have hidx : NP[c].toNat = j' := by
+      have hpw := List.pairwise_iff_getElem.1 hnd
+      rcases Nat.lt_trichotomy NP[c].toNat j' with hlt | heq | hgt
+      · exact absurd hp (hpw _ _ hb hj' hlt)
+      · exact heq
+      · exact absurd hp.symm (hpw _ _ hj' hb hgt)
+    have : NP[c] = (j' : Int) := by omega
+    rw [← this]
+    exact List.getElem_mem _
+
 end RefineLm
